@@ -119,6 +119,27 @@ impl Peer {
         }
     }
 
+    /// keep reading (and parsing) until the virtual instant `deadline`
+    pub async fn read_until(&mut self, deadline: Instant) {
+        let mut buf = [0u8; 8192];
+        loop {
+            if self.eof || self.io_error.is_some() {
+                tokio::time::sleep_until(deadline).await;
+                return;
+            }
+            match tokio::time::timeout_at(deadline, self.io.read(&mut buf)).await {
+                Ok(Ok(0)) => self.eof = true,
+                Ok(Ok(n)) => {
+                    self.rbuf.extend_from_slice(&buf[..n]);
+                    self.raw_in.extend_from_slice(&buf[..n]);
+                    self.parse_buffer(Instant::now());
+                }
+                Ok(Err(e)) => self.io_error = Some(e.to_string()),
+                Err(_) => return,
+            }
+        }
+    }
+
     /// frames that arrived since the last call (after settling)
     pub async fn new_frames(&mut self) -> Vec<RFrame> {
         self.settle().await;
